@@ -257,8 +257,13 @@ for _c in CONTRACTS:
 class TrueQuery(Contract):
     trusted = True
 
-    def __init__(self, file, qualname, note):
+    def __init__(self, file, qualname, note, proved=False):
         self.file, self.qualname, self.note = file, qualname, note
+        if proved:
+            self.trusted = False          # constant queries: their body is verified (returns the literal True)
+
+    def post(self, S, old, env, result):
+        return [Cl("returns-true", result is True)] if not self.trusted else []
 
     def inputs(self, S):
         return {"self": Obj("X", {})}
@@ -328,8 +333,8 @@ class ComputeSolutions(Contract):
 
 
 CONTRACTS += [CoarsenGrid(), EvaluateAreaForCallers(),
-              TrueQuery("sparseSpACE/GridOperation.py", "AreaOperation.is_area_operation", "Integration is an area operation (returns True)"),
-              TrueQuery("sparseSpACE/GridOperation.py", "Integration.count_unique_points", "returns True"),
+              TrueQuery("sparseSpACE/GridOperation.py", "AreaOperation.is_area_operation", "Integration is an area operation (returns True)", proved=True),
+              TrueQuery("sparseSpACE/GridOperation.py", "Integration.count_unique_points", "returns True", proved=True),
               TrueQuery("sparseSpACE/Grid.py", "Grid.isNested", "trapezoidal grids are nested (returns True)"),
               ComputeSolutions()]
 ASSUMPTIONS += ["compute_solutions is verified with the extend-split receiver and Integration; coarsen_grid is abstract (fixed function of (grid, area) per pass)"]
